@@ -387,6 +387,7 @@ func c33(c *core.Ctx) {
 	c.Rule("C33.filter", "in every implementation of NameSpace.Browse each ReferenceDescription that reaches BrowseResult.References was appended on the true edge of suitableRef(request, reference) (an implementation that returns references without consulting the filter ignores direction, reference type and class mask)", 2)
 	c.Rule("C33.fields", "suitableRef consults all of BrowseDirection, ReferenceTypeID, IncludeSubtypes and NodeClassMask of the request, and the reference's IsForward, ReferenceTypeID and NodeClass, before returning true", 1)
 
+	c33Subtypes(c)
 	impls := nameSpaceImpls(c, "Browse")
 	c.Count("NameSpace.Browse implementations", len(impls))
 	for _, f := range impls {
@@ -561,6 +562,9 @@ func c34(c *core.Ctx) {
 	}
 	c.Rule("C34.serial", "handleService (which runs every Read/Write handler) is called only synchronously from monitorConnections — never from a `go` statement, a per-connection goroutine or another root — and monitorConnections is started exactly once, in Start", 2)
 	c.Rule("C34.handlers", "no function reachable from a registered handler starts a goroutine that writes node value storage ((*Node).SetAttribute, Node.val, MapNamespace.Data); client-visible writes stay on the single dispatcher goroutine (notification reads from other goroutines are C36's concern)", 2)
+
+	c.Rule("C34.batch", "in the Read and Write handlers every element of the request array is performed before the response is built: the loop over NodesToRead / NodesToWrite is left only through its header or a return, never by a break that leaves later elements with their pre-allocated (Good) status and no effect", 2)
+	batchLoops(c, "C34.batch", map[string]bool{"Read": true, "Write": true})
 
 	cg := c.P.CallGraph()
 	// callers of handleService
